@@ -94,6 +94,8 @@ MUTANTS = [
     ("C10", "align-evict-early", "typhon/files/fileset.py", "                if not secondary_usage[secondary_file]:\n                    del cache[secondary_file]", "                if secondary_usage[secondary_file] <= 1:\n                    cache.pop(secondary_file, None)"),
     ("C10", "e2w-always", "typhon/files/fileset.py", "            except Exception as e:\n                if error_to_warning:\n                    msg = f\"[ERROR] Could not read the file(s):", "            except Exception as e:\n                if True:\n                    msg = f\"[ERROR] Could not read the file(s):"),
     ("C10", "collect-keeps-none-drops-order", "typhon/files/fileset.py", "        results = self.map(**map_args)\n\n        # Tell the python interpreter explicitly to free up memory to improve\n        # performance (see https://stackoverflow.com/q/1316767/9144990):\n        gc.collect()", "        results = self.map(**map_args)[::-1]\n\n        gc.collect()"),
+    ("C11", "bound-reader-loses-read-args", "typhon/files/handlers/common.py", "            number_args = 1\n            if len(signature(self.reader).parameters) > number_args:", "            number_args = 1 + int(ismethod(self.reader))\n            if len(signature(self.reader).parameters) > number_args:"),
+    ("C11", "write-args-not-merged", "typhon/files/fileset.py", "        write_args = {**self.write_args, **write_args}", "        write_args = {**write_args}"),
     ("C11", "target-times-reversed", "typhon/files/fileset.py", "        new_filename = destination.get_filename(\n            file_info.times, fill=file_info.attr\n        )\n\n        # Shall we simply move", "        new_filename = destination.get_filename(\n            (file_info.times[0], file_info.times[0]), fill=file_info.attr\n        )\n\n        # Shall we simply move"),
     ("C11", "remove-on-copy", "typhon/files/fileset.py", "            if not copy:\n                os.remove(file_info.path)", "            if True:\n                os.remove(file_info.path)"),
     ("C11", "copy-instead-of-move", "typhon/files/fileset.py", "            if copy:\n                fileset.file_system.copy(file_info.path, new_filename)\n            else:\n                fileset.file_system.move(file_info.path, new_filename)", "            fileset.file_system.copy(file_info.path, new_filename)"),
@@ -146,6 +148,7 @@ MUTANTS = [
     ("C17", "avk-KG", "typhon/retrieval/oem/common.py", "    return retrieval_gain_matrix(K, S_a, S_y) @ K", "    return (K @ retrieval_gain_matrix(K, S_a, S_y)) if K.shape[0] == K.shape[1] else retrieval_gain_matrix(K, S_a, S_y) @ K"),
     ("C17", "gain-missing-Sy", "typhon/retrieval/oem/common.py", "    return inv(inv(S_a) + K.T @ inv(S_y) @ K) @ K.T @ inv(S_y)", "    return inv(inv(S_a) + K.T @ inv(S_y) @ K) @ K.T"),
     ("C17", "smoothing-sign", "typhon/retrieval/oem/error.py", "    return A @ (x - x_a)", "    return A @ (x_a - x)"),
+    ("C18", "window-without-rounding-slack", "typhon/retrieval/bmci/bmci.py", "        slack = 1e-12 * (1.0 + np.abs(dy).sum())", "        slack = 0.0"),
     ("C18", "inverse-ignores-correlations", "typhon/retrieval/bmci/bmci.py", "        self.s_o_inv = np.linalg.inv(self.s_o)", "        self.s_o_inv = np.diag(1.0 / np.diag(self.s_o))"),
     ("C18", "window-half-width-misparenthesised", "typhon/retrieval/bmci/bmci.py", "        s_l = y_proj - np.sqrt(2.0 * x2_max / self.pc1_e)\n        s_u = y_proj + np.sqrt(2.0 * x2_max / self.pc1_e)", "        s_l = y_proj - np.sqrt(2.0 * x2_max) / self.pc1_e\n        s_u = y_proj + np.sqrt(2.0 * x2_max) / self.pc1_e"),
     ("C18", "window-slice-from-zero", "typhon/retrieval/bmci/bmci.py", "                xs[i] = np.sum(self.x[i_l:i_u].ravel() * ws.ravel() / c)", "                xs[i] = np.sum(self.x[:i_u - i_l].ravel() * ws.ravel() / c)"),
